@@ -39,6 +39,13 @@ type Event struct {
 	Info  string
 }
 
+// StoreRec is one call of Cache.Store.
+type StoreRec struct {
+	Label string   `json:"label"`
+	Key   string   `json:"key"`
+	Files []string `json:"files"`
+}
+
 // Obs is everything observed in one execution.
 type Obs struct {
 	Events   []Event
@@ -46,6 +53,7 @@ type Obs struct {
 	Dropped  int                 // results logged but never forwarded when the results channel was closed
 	Failed   bool                // state.Failures() "anything"
 	Deps     map[string][]string // resolved deps per built target (from the graph at the end)
+	Stores   []StoreRec          // every Cache.Store call: key and file list
 }
 
 func (o *Obs) String() string {
@@ -185,6 +193,9 @@ func (c *fakeCache) Store(target *core.BuildTarget, key []byte, files []string) 
 	vsched.Yield()
 	vsched.Event("action")
 	c.obs.Events = append(c.obs.Events, Event{"stored", target.Label.String(), ""})
+	fs := append([]string{}, files...)
+	sort.Strings(fs)
+	c.obs.Stores = append(c.obs.Stores, StoreRec{Label: target.Label.String(), Key: fmt.Sprintf("%x", key), Files: fs})
 }
 func (c *fakeCache) Retrieve(target *core.BuildTarget, key []byte, files []string) bool { return false }
 func (c *fakeCache) Clean(target *core.BuildTarget)                                     {}
